@@ -99,6 +99,29 @@ for hdr in pre:
             want_h = [l.decode() for l in hdr if l.strip()]
             if banner is None or str(banner) != 'SSH-2.0-OpenSSH_9.9 comment here' or header != want_h:
                 fail({'header lines': [l.decode() for l in hdr], 'eol': repr(eol), 'segment': seg, 'then': after}, {'banner': str(banner), 'header': header}, {'banner': 'SSH-2.0-OpenSSH_9.9 comment here', 'header': want_h}, 'header' if seg is None else 'header-segmented')
+# control / non-ASCII bytes at the END of the identification line (before the line ending) are shown as '?' and flagged, like anywhere else
+for tail in (b'\x1c', b'\x1f', b'\x7f', b'\xc2\x85', b'\xc2\xa0', b'\xe2\x80\xa8', b'\x00'):      # (ASCII white space such as TAB, VT, FF at the end of the line is trimmed with the line ending: not in this family)
+    for eol in (b'\r\n', b'\n'):
+        cases += 1
+        stream = b'hello\r\nSSH-2.0-OpenSSH_9.9 tail' + tail + eol
+        peer = F.Peer('healthy')
+        peer.script = lambda n, stream=stream: [stream, socket.timeout('timed out')]
+        with F.FakeNet({'h.test': peer}):
+            s = SSH_Socket(OutputBuffer(), 'h.test', 22)
+            s.connect()
+            banner, header, e = s.get_banner()
+        if banner is None or banner.valid_ascii or not str(banner).startswith('SSH-2.0-OpenSSH_9.9 tail?'):
+            fail({'line ends with': repr(tail), 'eol': repr(eol)}, None if banner is None else {'shown': str(banner), 'valid_ascii': banner.valid_ascii}, "shown with '?' for each such byte and flagged as non-printable", 'trailing-control-bytes')
+# the header lines sent before the identification string appear in the report of a complete standard audit
+for hdr in ([b'Welcome to host'], [b'line one', b'line two']):
+    cases += 1
+    sv = F.Server(['curve25519-sha256', 'diffie-hellman-group-exchange-sha256'], ['ssh-ed25519'], ['aes128-ctr'], ['hmac-sha2-256'], hostkeys={'ssh-ed25519': F.ed25519_blob()}, moduli=[3072],
+                  banner=b''.join(l + b'\r\n' for l in hdr) + b'SSH-2.0-OpenSSH_9.9\r\n')
+    st, out = F.run_main(['-n', '--skip-rate-test', 'h.test'], F.FakeNet({'h.test': sv}))
+    got = [l for l in out.split('\n') if l.startswith('(gen) header:')]
+    want = '(gen) header: ' + hdr[0].decode()
+    if not got or got[0] != want or any(l.decode() not in out for l in hdr):
+        fail({'header lines': [l.decode() for l in hdr]}, got[:2], want, 'header-in-report')
 # product families
 fam = [('OpenSSH_%%s', 'OpenSSH'), ('dropbear_%%s', 'Dropbear SSH'), ('libssh-%%s', 'libssh'), ('libssh_%%s', 'libssh'), ('tinyssh_%%s', 'TinySSH'), ('PuTTY_Release_%%s', 'PuTTY')]
 for tmpl, prod in fam:
